@@ -98,6 +98,11 @@ func exactEnum(c *vcore.Ctx) {
 			c.HarnessError("replay: %v", err)
 			return
 		}
+		var rc exactReallocCase
+		if jsonUnmarshal(c.Replay, &rc) == nil && rc.Origin > 0 {
+			exactRealloc(c, envs, rc.Base, rc.Node, rc.Origin, rc.Delta)
+			return
+		}
 		run(&ec)
 		return
 	}
@@ -123,4 +128,77 @@ func exactEnum(c *vcore.Ctx) {
 			}
 		}
 	}
+	// a bound instance that is re-allocated is still a bound instance: after every realloc
+	// (keep-bind or re-bind; request and/or limit delta) the pieces must again total the
+	// recorded amount
+	for _, base := range []int{100, 10} {
+		for _, name := range []string{"4-full", "numa-2+2"} {
+			for _, tenth := range []int{3, 5, 10, 12, 15, 17} {
+				for _, rq := range []wReq{
+					{Keep: true}, {Keep: true, CPU: 0.5}, {Keep: true, CPULimit: 0.5}, {Keep: true, CPU: 0.5, CPULimit: 0.5}, {Keep: true, CPU: -0.2},
+					{Bind: true, CPU: 0.5}, {Bind: true, CPULimit: 0.7}, {Keep: true, Mem: 10}, {Keep: true, CPULimit: 1.5, Mem: 10},
+				} {
+					idx++
+					if !c.Mine(idx) {
+						continue
+					}
+					exactRealloc(c, envs, base, name, float64(tenth)/10, rq)
+				}
+			}
+		}
+	}
+}
+
+type exactReallocCase struct {
+	Base   int     `json:"share_base"`
+	Node   string  `json:"node_shape"`
+	Origin float64 `json:"origin_cpu"`
+	Delta  wReq    `json:"realloc_request"`
+}
+
+func exactRealloc(c *vcore.Ctx, envs penvCache, base int, node string, origin float64, delta wReq) {
+	ec := &exactReallocCase{Base: base, Node: node, Origin: origin, Delta: delta}
+	env := envs.get(base, -1)
+	st := exactNodes(base)[node]
+	env.SetNodeRaw("n", st.info())
+	guard(c, "C05", ec, func() {
+		r, err := env.Plugin.CalculateDeploy(bg, "n", 1, wReq{Bind: true, CPU: origin, Mem: 10}.raw())
+		c.Eval()
+		if err != nil {
+			return
+		}
+		if _, err := env.Plugin.SetNodeResourceUsage(bg, "n", nil, nil, r.WorkloadsResource, true, true); err != nil {
+			return
+		}
+		rr, err := env.Plugin.CalculateRealloc(bg, "n", r.WorkloadsResource[0], delta.raw())
+		c.Eval()
+		if err != nil {
+			c.Outcome("realloc-refused")
+			return
+		}
+		w, err := parseWR(rr.WorkloadResource)
+		if err != nil {
+			c.HarnessError("parse: %v", err)
+			return
+		}
+		if len(w.CPUMap) == 0 {
+			c.Outcome("realloc-unbound")
+			return
+		}
+		c.Outcome("realloc-bound")
+		c.Nontrivial(vcore.JSON(ec))
+		sum, frag := 0, 0
+		for _, p := range w.CPUMap {
+			sum += p
+			if p%base != 0 {
+				frag++
+			}
+		}
+		if math.Abs(w.CPURequest*float64(base)-float64(sum)) >= 0.5 {
+			c.Violate("C05/realloc/recorded-amount-disagrees", fmt.Sprintf("after realloc the workload records cpu_request %v (= %v pieces at base %d) but holds %d pieces %v | case=%s", w.CPURequest, w.CPURequest*float64(base), base, sum, w.CPUMap, vcore.JSON(ec)), ec)
+		}
+		if frag > 1 {
+			c.Violate("C05/realloc/more-than-one-fragment", fmt.Sprintf("after realloc %d fragment cores: %v | case=%s", frag, w.CPUMap, vcore.JSON(ec)), ec)
+		}
+	})
 }
